@@ -17,5 +17,8 @@ for spec in "seq:C01 6000" "seq:C05 6000" "seq:C10 3000" "seq:C11 6000" "seq:C12
 done
 $B/llvm-profdata merge -sparse $P/*.profraw -o $P/all.profdata
 $B/llvm-cov report $T/release/simcheck -instr-profile=$P/all.profdata --ignore-filename-regex='(\.cargo|rustc|rustlib|/verif/|src/tests|verif\.rs|verif_observe)' > coverage/report.txt 2>/dev/null
+for f in core/store/migration.rs core/store/recovery.rs core/store/persistence.rs core/store/init.rs core/ttl_sweep.rs core/store/range.rs storage/write_buffer.rs storage/free_space.rs storage/allocation_journal.rs storage/format.rs; do
+  echo "=== $f"; $B/llvm-cov show $T/release/simcheck -instr-profile=$P/all.profdata /repo/src/$f 2>/dev/null | grep -E "^ +[0-9]+\| +0\|" | grep -v -E "^\s*[0-9]*\|\s*0\|\s*[})\];,]*\s*$" | cut -c1-140
+done > coverage/uncovered.txt
 tail -40 coverage/report.txt
 rm -rf $T $P
